@@ -65,6 +65,16 @@ class Ctx:
             self.violated(file, qual, construct, detail, expected, rule)
         return cond
 
+    def form(self, cond, file, qual, construct, detail=None, rule=None, expected=None):
+        """Idiom recognition: the construct either has the recognised shape (HOLDS) or the
+        abstraction cannot interpret it (UNRECOGNISED, exit 2) - never a violation, because a
+        different spelling need not be a different behaviour."""
+        if cond:
+            self.holds(file, qual, construct, detail, rule)
+        else:
+            self.unrecognised(file, qual, construct, f"shape not recognised: {detail!r}"[:300], rule)
+        return cond
+
     def floor(self, what, found, minimum, file="-", rule=None):
         """Fail closed when fewer instances than confirmed by hand are found."""
         if found < minimum:
